@@ -17,6 +17,11 @@
 open Model
 open Conv
 
+(* Which coalesce_entries the implementation is compared with: false = patronus-dse as it is
+   (delete list in discovery order), true = with `delete_list.sort_unstable()` before
+   delete_entries.  FLIP THIS (and drop the finding coalesce:overlap) when that fix is committed in /repo. *)
+let coalesce_fixed = false
+
 let rec nat_of_int (i : int) : nat = if i <= 0 then O else S (nat_of_int (i - 1))
 let rec int_of_nat = function O -> 0 | S k -> 1 + int_of_nat k
 
@@ -122,7 +127,7 @@ let handle (x : Sexp.t) : string =
            let kind = Sexp.atom (List.hd (Sexp.list sx)) in
            (* ---- model ---- *)
            let op = to_op sx in
-           let mres = match !st with Some s -> (match vstep debug false s op with Ok s' -> Some s' | Panic -> None) | None -> None in
+           let mres = match !st with Some s -> (match vstep debug coalesce_fixed s op with Ok s' -> Some s' | Panic -> None) | None -> None in
            (match ir, mres with
             | IPanic, None -> ()
             | IPanic, Some _ -> note_diff (Printf.sprintf "step %d (%s): implementation panics at %s, model does not" stepno kind panicloc)
